@@ -4,9 +4,10 @@ Import ListNotations.
 Open Scope N_scope.
 
 (* client_proto.ResponseHandler.should_close; pay_open = _payload is not None and not _payload.is_eof();
-   pparser = a WebSocket payload parser is installed; buf/tail = _buffer/_tail non-empty *)
-Definition should_close_gen (sc pay_open upg exc pparser buf tail : bool) : bool :=
-  (sc || pay_open || upg || exc || pparser || buf || tail).
+   pparser = a WebSocket payload parser is installed; buf/tail = _buffer/_tail non-empty;
+   pleft = the HTTP parser exists and buffers an incomplete line / head block (_tail or _lines) *)
+Definition should_close_gen (sc pay_open upg exc pparser buf tail pleft : bool) : bool :=
+  (sc || pay_open || upg || exc || pparser || buf || tail || pleft).
 
 Definition is_connected_gen (has_transport closing : bool) : bool :=
   (has_transport && (negb closing)).
@@ -25,7 +26,7 @@ Definition release_closes_gen (force arg psc : bool) : bool :=
 (* connector.BaseConnector._get: the pooled connection taken from the left end is reused iff ...;
    psc = protocol.should_close (absent from the unchanged code) *)
 Definition get_reuses_gen (connected psc : bool) (age keepalive : Z) : bool :=
-  connected && (age <=? keepalive)%Z.
+  connected && (negb psc) && (age <=? keepalive)%Z.
 
 (* client_reqrep.ClientResponse._response_eof: releases unless already closed or the protocol is upgraded *)
 Definition response_eof_releases_gen (closed upgraded : bool) : bool :=
